@@ -414,7 +414,7 @@ def gen_valid_spec(rng, via="code", size=None, with_resolvers=False):
     if rng.random() < 0.5:
         scalars.append({"kind": "scalar", "name": "Date"})
     n_in = rng.randint(1, size)
-    in_leaf = ["Int", "String", "Boolean", "ID"] + [e["name"] for e in enums] + [s_["name"] for s_ in scalars]
+    in_leaf = ["Int", "Float", "String", "Boolean", "ID"] + [e["name"] for e in enums] + [s_["name"] for s_ in scalars]
     for i in range(n_in):
         inputs.append({"kind": "input", "name": "In%d" % i, "fields": []})
     sofar = enums + scalars
@@ -549,7 +549,7 @@ def _of_kind(spec, k):
 def _other_type(rng, spec, t, positions):
     """a type different from t drawn from every wrapping (depth <= 3) of
     candidate names; biased towards changes of the wrappers only"""
-    names = [tbase(t)] * 3 + positions
+    names = [tbase(t)] * 3 + positions + [n for n in BUILTIN_NAMES if n in positions]
     for _ in range(20):
         cand = rng.choice(all_wrappings(rng.choice(names), 3))
         if cand != t:
@@ -557,12 +557,19 @@ def _other_type(rng, spec, t, positions):
     return None
 
 
+BUILTIN_NAMES = ["Int", "Float", "String", "ID", "Boolean"]
+
+
 def _out_names(spec):
-    return ["Int", "String", "Boolean"] + [t["name"] for t in spec["types"] if t["kind"] not in ("input",)]
+    return BUILTIN_NAMES + [t["name"] for t in spec["types"] if t["kind"] not in ("input",)]
 
 
 def _in_names(spec):
-    return ["Int", "String", "Boolean"] + [t["name"] for t in spec["types"] if t["kind"] in ("enum", "input", "scalar")]
+    return BUILTIN_NAMES + [t["name"] for t in spec["types"] if t["kind"] in ("enum", "input", "scalar")]
+
+
+def _leaf_in_names(spec):
+    return BUILTIN_NAMES + [t["name"] for t in spec["types"] if t["kind"] in ("enum", "scalar")]
 
 
 def _leafdefs(spec):
@@ -736,7 +743,7 @@ def _apply_edit(rng, spec, kind):
             td["fields"].remove(f)
             return sp, {"edit": kind, "path": [td["name"], f["name"]]}
         if kind == "retype_input_field":
-            new = _other_type(rng, sp, f["type"], ["Int", "String", "Boolean"])
+            new = _other_type(rng, sp, f["type"], _leaf_in_names(sp))
             if new is None:
                 return None
             old, f["type"] = f["type"], new
@@ -844,7 +851,7 @@ def _apply_edit(rng, spec, kind):
         d["args"].remove(a)
         return sp, {"edit": kind, "path": [d["name"], a["name"]]}
     if kind == "retype_dir_arg":
-        new = _other_type(rng, sp, a["type"], ["Int", "String", "Boolean"])
+        new = _other_type(rng, sp, a["type"], _leaf_in_names(sp))
         if new is None:
             return None
         old, a["type"] = a["type"], new
@@ -1325,3 +1332,103 @@ def parse_type(s):
     if s.startswith("["):
         return L(parse_type(s[1:-1]))
     return N(s)
+
+
+# ------------------------------------------------------------------ operations that reach one input position through a variable
+def _route(sch, target):
+    """selection steps from a root type to the composite type named target:
+    list of ("field", Field) / ("frag", ObjectType); None when unreachable in 4 steps"""
+    roots = [("query", sch.query_type)] + ([("mutation", sch.mutation_type)] if sch.mutation_type else [])
+    for kw, root in roots:
+        frontier, seen = [(root, [])], {root.name}
+        for _ in range(5):
+            nxt = []
+            for t, steps in frontier:
+                if t.name == target:
+                    return kw, steps
+                if isinstance(t, (S.ObjectType, S.InterfaceType)):
+                    for f in t.fields:
+                        inner = S.unwrap_type(f.type)
+                        if isinstance(inner, (S.ObjectType, S.InterfaceType, S.UnionType)) and inner.name not in seen:
+                            seen.add(inner.name)
+                            nxt.append((inner, steps + [("field", f)]))
+                if isinstance(t, (S.InterfaceType, S.UnionType)):
+                    for pt in sch.get_possible_types(t):
+                        if pt.name not in seen:
+                            seen.add(pt.name)
+                            nxt.append((pt, steps + [("frag", pt)]))
+            frontier = nxt
+    return None
+
+
+def _required_args(rng, args, skip=None):
+    return ["%s: %s" % (a.name, _literal(rng, a.type)) for a in args if a.required and a.name != skip]
+
+
+def _wrap_route(rng, steps, inner):
+    text = inner
+    for kind, x in reversed(steps):
+        if kind == "frag":
+            text = "... on %s { %s }" % (x.name, text)
+        else:
+            args = _required_args(rng, x.arguments)
+            text = "r_%s: %s%s { %s }" % (x.name, x.name, ("(" + ", ".join(args) + ")") if args else "", text)
+    return text
+
+
+def _value_with(t, leaf):
+    """literal of (wrapped) type t whose innermost value is [leaf]"""
+    if isinstance(t, S.NonNullType):
+        return _value_with(t.type, leaf)
+    if isinstance(t, S.ListType):
+        return "[%s]" % _value_with(t.type, leaf)
+    return leaf
+
+
+def variable_operations(rng, sch, d):
+    """for a retype edit descriptor: operations (valid against sch, the OLD
+    schema) that pass a variable declared with the old type at the retyped
+    input position"""
+    kind, path = d.get("edit"), d.get("path")
+    out = []
+    if kind == "retype_arg":
+        r = _route(sch, path[0])
+        if r is None:
+            return out
+        kw, steps = r
+        t = sch.types[path[0]]
+        f = t.field_map[path[1]]
+        a = f.argument_map[path[2]]
+        args = _required_args(rng, f.arguments, skip=a.name) + ["%s: $v" % a.name]
+        sub = " { __typename }" if isinstance(S.unwrap_type(f.type), (S.ObjectType, S.InterfaceType, S.UnionType)) else ""
+        out.append("%s Op($v: %s) { %s }" % (kw, a.type, _wrap_route(rng, steps, "%s(%s)%s" % (f.name, ", ".join(args), sub))))
+    elif kind == "retype_input_field":
+        it = sch.types[path[0]]
+        fld = it.field_map[path[1]]
+        others = ["%s: %s" % (g.name, _literal(rng, g.type, 1)) for g in it.fields if g.required and g.name != fld.name]
+        obj = "{%s}" % ", ".join(others + ["%s: $v" % fld.name])
+        for t in sch.types.values():
+            if not isinstance(t, (S.ObjectType, S.InterfaceType)) or t.name.startswith("__"):
+                continue
+            for f in t.fields:
+                for a in f.arguments:
+                    if S.unwrap_type(a.type) is it and len(out) < 2:
+                        r = _route(sch, t.name)
+                        if r is None:
+                            continue
+                        kw, steps = r
+                        args = _required_args(rng, f.arguments, skip=a.name) + ["%s: %s" % (a.name, _value_with(a.type, obj))]
+                        sub = " { __typename }" if isinstance(
+                            S.unwrap_type(f.type), (S.ObjectType, S.InterfaceType, S.UnionType)) else ""
+                        out.append("%s Op($v: %s) { %s }" % (
+                            kw, fld.type, _wrap_route(rng, steps, "%s(%s)%s" % (f.name, ", ".join(args), sub))))
+    elif kind == "retype_dir_arg":
+        dd = sch.directives[path[0]]
+        a = next(x for x in dd.arguments if x.name == path[1])
+        args = _required_args(rng, dd.arguments, skip=a.name) + ["%s: $v" % a.name]
+        use = "@%s(%s)" % (dd.name, ", ".join(args))
+        if "FIELD" in dd.locations:
+            out.append("query Op($v: %s) { __typename %s }" % (a.type, use))
+        elif "QUERY" in dd.locations:
+            out.append("query Op($v: %s) %s { __typename }" % (a.type, use))
+    return out
